@@ -22,6 +22,15 @@ Section G.
     destruct (C13_round_trip_api K laws O C OL dbg ent sk s msg id w0 Hl Hk Hh Hc) as (ct & sg & H1 & H2 & H3).
     exists ct, sg. rewrite r_pk_encrypt_time_lock, r_sk_sign, r_tlct_decrypt, H2. repeat split; assumption.
   Qed.
+  (* C13, soundness of opening: whatever the translated BlsTimeCrypt::unseal returns was sealed - the flag was set, no
+     identity entered, and U is the commitment of the recovered alpha and the returned message *)
+  Theorem generated_time_lock_open_sound (OL : OracleLaws K O (SIG_LEN C) (PK_LEN C))
+          (u : pt K Gpk) (v : list N) (w : bytes) (sig : pt K Gsig) (valid : bool) (m' : bytes) :
+    length v = 32%nat ->
+    gen_BlsTimeCrypt_unseal E u v w sig valid = Val (Some m') ->
+    valid = true /\ dl sig <> f0 K /\ dl u <> f0 K /\ dl u = r_tl K O (recovered_alpha K O u v sig) m'.
+  Proof. intros Hl. rewrite r_tl_unseal. apply (C13_open_sound K laws O C OL dbg u v w sig valid m' Hl). Qed.
 End G.
 
 Print Assumptions generated_time_lock_round_trip.
+Print Assumptions generated_time_lock_open_sound.
